@@ -1,6 +1,6 @@
 (* Entry points used by the extracted OCaml driver (and by generated cases.v
    files evaluated with vm_compute). *)
-From SV Require Export Checkers.AllocChk.
+From SV Require Export Checkers.AllocChk Checkers.ConcChk.
 
 (* model transcript; ends with [9] at the first stuck state *)
 Fixpoint enc_run (fixed : bool) (w : world) (os : list op) : list (list Z) :=
